@@ -780,7 +780,7 @@ def process(case):
 def run(ctx):
     out = common.Outcome()
     out.proof = common.proof_status(FAMILY, PROPFILE)
-    n = ctx.scale(700, 9000)
+    n = ctx.scale(700, 18000)
     cases = [dict(c) for c in FIXED] + [gen_block(ctx.rng) for _ in range(n)]
     coq_cases, metas, seen = [], [], set()
     stats = {'contract': 0, 'wild': 0, 'malformed': 0, 'fixed': 0, 'docstring_stress_comments': 0, 'rejected_by_parser': 0, 'outside_model_fragment': 0,
